@@ -403,6 +403,428 @@ theorem icmp_v4_end_to_end {F : Type} [Agg.Num F] {c : Cfg} (hc : CfgOk c) {st :
   refine ⟨w.toStrat (st.chan.now + e.dt), by rw [ha, hwa], hrt, by simpa [Wire.WResp.toStrat] using hwk,
     ts2, h1, h2, h3, fun st' out hit r hr => (h4 st' out hit).2.2 r hr⟩
 
+/-! ## the whole stack never panics (C04 ∘ C09 ∘ C16) -/
+
+theorem bind_ok_inv {α β : Type} {x : R α} {f : α → R β} {b : β} (h : (x >>= f) = .ok b) :
+    ∃ a, x = .ok a ∧ f a = .ok b := by
+  cases x with
+  | ok a => exact ⟨a, rfl, h⟩
+  | err e => cases h
+  | panic => cases h
+
+/-- the machine-valued part of a builder-made configuration: `TraceId(u16)`, `Port(u16)` -/
+def CfgMach (c : Cfg) : Prop :=
+  c.traceId < 65536 ∧
+  (match c.portDir with
+   | .fixedSrc a => a < 65536
+   | .fixedDest a => a < 65536
+   | .fixedBoth a b => a < 65536 ∧ b < 65536
+   | .none => True)
+
+/-- what `send_never_panics` needs of a probe handed to the channel `cc` -/
+def GoodProbe (cc : Wire.ChanCfg) (p : Probe) : Prop :=
+  Wire.ProbeOk p ∧
+  (cc.proto = .udp → cc.privileged = true → Wire.isParis p.flags = false → cc.v6 = true →
+    Wire.isDublin p.flags = true → cc.initialSeq ≤ p.seq ∧ p.seq - cc.initialSeq ≤ 970)
+
+/-- the fields `probe_data` fills in are machine values, and the Dublin flag is set only by the
+Dublin strategy of a UDP trace -/
+theorem probeData_mach {c : Cfg} (hm : CfgMach c) {s : TS} (hseq : s.sequence < 65536)
+    {sp dp id fl : Nat} (h : probeData c s = .ok (sp, dp, id, fl)) :
+    sp < 65536 ∧ dp < 65536 ∧ id < 65536 ∧
+    (Wire.isDublin fl = true → c.proto = .udp ∧ c.strat = .dublin) := by
+  have hrp : roundPort c s < 65536 := by unfold roundPort; omega
+  obtain ⟨hid, hpd⟩ := hm
+  unfold probeData at h
+  cases hp : c.proto <;> cases hs : c.strat <;> cases hd : c.portDir <;>
+    simp only [hp, hs, hd] at h hpd <;> cases h <;>
+    simp [Wire.isDublin] <;> omega
+
+/-- a probe allocated by `next_probe` in an invariant state is good for the channel -/
+theorem nextProbe_good {c : Cfg} (hc : CfgOk c) (hm : CfgMach c) {cc : Wire.ChanCfg}
+    (hcs : C02.Compat cc c) {s s' : TS} (hi : Inv c s) (hcap : s.count < BUFFER_SIZE) {t : Nat} {p : Probe}
+    (h : nextProbe c s t = .ok (s', p)) : GoodProbe cc p := by
+  have hseq := hi.seq_lt hc hcap
+  unfold nextProbe at h
+  cases hd : probeData c s with
+  | panic => simp [hd] at h
+  | err e => simp [hd] at h
+  | ok d =>
+    obtain ⟨sp, dp, id, fl⟩ := d
+    obtain ⟨h1, h2, h3, h4⟩ := probeData_mach hm (by omega) hd
+    simp only [hd, R.bind_ok] at h
+    cases hsu : subU s.sequence s.roundSeq with
+    | panic => simp [hsu] at h
+    | err e => simp [hsu] at h
+    | ok idx =>
+      simp only [hsu, R.bind_ok] at h
+      obtain ⟨s1, hss, h⟩ := bind_ok_inv h
+      (
+        have hs1 : s1.ttl = s.ttl ∧ s1.sequence = s.sequence := by
+          unfold setSlot at hss; split at hss <;> cases hss; exact ⟨rfl, rfl⟩
+        split at h
+        · cases h
+        · split at h
+          · cases h
+          · cases h
+            have httl := hi.ttl_le
+            refine ⟨⟨by simp; omega, h3, h1, h2, ?_⟩, ?_⟩
+            · rename_i hlt _; simp at hlt; simp; omega
+            · intro hpu _ _ hv6 hdub
+              simp only at hdub
+              obtain ⟨_, hstrat⟩ := h4 hdub
+              simp only
+              have hrs := hi.rs_ge
+              have hrl := hi.rs_lt
+              have hse := hi.seq_eq
+              have hnt : c.proto ≠ .tcp := by rw [← hcs.2.1, hpu]; simp
+              have hct := hi.count_ttl hnt
+              have hv : c.v6 = true := by rw [← hcs.1]; exact hv6
+              have hms : maxSeqN c = c.initialSeq + 512 := by
+                simp [maxSeqN, hstrat, hv, BUFFER_SIZE_eq]
+              rw [hcs.2.2.1]
+              omega)
+
+/-- a probe re-issued by `reissue_probe` (TCP only) is good for the channel -/
+theorem reissueProbe_good {c : Cfg} (hc : CfgOk c) (hm : CfgMach c) {cc : Wire.ChanCfg}
+    (hcs : C02.Compat cc c) (htcp : c.proto = .tcp) {s s' : TS} {p0 : Probe} (ha : Alloc c s p0)
+    (hcap : s.count < BUFFER_SIZE) {t : Nat} {p : Probe}
+    (h : reissueProbe c s t = .ok (s', p)) : GoodProbe cc p := by
+  have hi := ha.inv
+  have hseq := hi.seq_lt hc hcap
+  obtain ⟨p', hre, hps, hpt, _, _⟩ := reissueProbe_spec hc ha hcap t
+  rw [hre] at h; cases h
+  -- the fields come from `probe_data` in a state with the same sequence and round
+  have hfields : p.srcPort < 65536 ∧ p.destPort < 65536 ∧ p.ident < 65536 := by
+    unfold reissueProbe at hre
+    cases hsu : subU s.sequence s.roundSeq with
+    | panic => simp [hsu] at hre
+    | err e => simp [hsu] at hre
+    | ok idx =>
+      simp only [hsu, R.bind_ok] at hre
+      cases hs1 : subU idx 1 with
+      | panic => simp [hs1] at hre
+      | err e => simp [hs1] at hre
+      | ok im1 =>
+        simp only [hs1, R.bind_ok] at hre
+        cases hss : setSlot s im1 .skipped with
+        | panic => simp [hss] at hre
+        | err e => simp [hss] at hre
+        | ok s1 =>
+          simp only [hss, R.bind_ok] at hre
+          have hs1e : s1.sequence = s.sequence ∧ s1.round = s.round ∧ s1.ttl = s.ttl := by
+            unfold setSlot at hss; split at hss <;> cases hss; exact ⟨rfl, rfl, rfl⟩
+          cases hd : probeData c s1 with
+          | panic => simp [hd] at hre
+          | err e => simp [hd] at hre
+          | ok d =>
+            obtain ⟨sp, dp, id, fl⟩ := d
+            obtain ⟨h1, h2, h3, _⟩ := probeData_mach hm (by rw [hs1e.1]; omega) hd
+            simp only [hd, R.bind_ok] at hre
+            cases hst : subU s1.ttl 1 with
+            | panic => simp [hst] at hre
+            | err e => simp [hst] at hre
+            | ok tt =>
+              simp only [hst, R.bind_ok] at hre
+              obtain ⟨s2, hss2, hre⟩ := bind_ok_inv hre
+              (
+                split at hre
+                · cases hre
+                · simp only [R.ok.injEq, Prod.mk.injEq] at hre
+                  obtain ⟨_, hpe⟩ := hre
+                  rw [← hpe]; exact ⟨h1, h2, h3⟩)
+  have httl := hi.ttl_le
+  refine ⟨⟨by omega, hfields.2.2, hfields.1, hfields.2.1, by omega⟩, ?_⟩
+  intro hpu; rw [hcs.2.1, htcp] at hpu; cases hpu
+
+/-- what the channel of a running tracer satisfies and `send_probe` / `recv_probe` preserve -/
+structure ChanGood (c : Cfg) (ch : Chan.Chan) : Prop where
+  inv : Channel.Inv ch
+  compat : C02.Compat ch.cfg c
+  addr : ch.cfg.AddrOk
+
+theorem ChanGood.same {c : Cfg} {a b : Chan.Chan} (h : ChanGood c a) (hs : SameChan a b) : ChanGood c b :=
+  ⟨by unfold Channel.Inv at *; rw [hs.2.2.2, hs.1]; exact h.inv, by rw [hs.1]; exact h.compat,
+   by rw [hs.1]; exact h.addr⟩
+
+theorem send_good_no_panic {c : Cfg} {ch : Chan.Chan} (hg : ChanGood c ch) {p : Probe}
+    (hp : GoodProbe ch.cfg p) (inj : Chan.Inject) : (Chan.send ch p inj).2 ≠ .panic :=
+  Channel.send_never_panics ch hg.inv p inj (Channel.wire_dispatch_never_panics ch.cfg hg.addr p hp.1 hp.2)
+
+theorem finishSend_no_panic {c : Cfg} {ch : Chan.Chan} {s : TS} {p : Probe} (ha : Alloc c s p)
+    (log : List (Probe × SendOutcome)) (calls : List (List Wire.SockOp)) {out : Chan.SendOut}
+    (ho : out ≠ .panic) : finishSend ch s p log calls out ≠ .panic := by
+  cases out with
+  | panic => exact absurd rfl ho
+  | ok ops => simp [finishSend]
+  | err e ops => cases e <;> simp [finishSend, failProbe_spec ha]
+
+/-- the TCP loop over the channel never panics -/
+theorem tcpLoopS_no_panic {c : Cfg} (hc : CfgOk c) (hm : CfgMach c) (htcp : c.proto = .tcp) :
+    ∀ (injs : List Chan.Inject) (ch : Chan.Chan) (s : TS) (p : Probe) (log : List (Probe × SendOutcome))
+      (calls : List (List Wire.SockOp)), ChanGood c ch → Alloc c s p → GoodProbe ch.cfg p →
+      tcpLoopS c ch s p log calls injs ≠ .panic := by
+  intro injs
+  induction injs with
+  | nil =>
+    intro ch s p log calls hg ha hp
+    simp only [tcpLoopS]
+    exact finishSend_no_panic ha log calls (send_good_no_panic hg hp none)
+  | cons inj rest ih =>
+    intro ch s p log calls hg ha hp
+    simp only [tcpLoopS]
+    have hnp := send_good_no_panic hg hp inj
+    have hsc := sameChan_send ch p inj
+    cases hout : (Chan.send ch p inj).2 with
+    | panic => exact absurd hout hnp
+    | ok ops => exact finishSend_no_panic ha log calls (by simp)
+    | err e ops =>
+      by_cases hea : e = .addrInUse
+      · subst hea
+        simp only [roundHasCapacity_eq ha.inv, R.bind_ok]
+        by_cases hcap : s.count < BUFFER_SIZE
+        · obtain ⟨p', hre, hs', ht', hr', _⟩ := reissueProbe_spec hc ha hcap s.now
+          simp only [hcap, decide_true, if_true, hre, R.bind_ok]
+          have hg' := hg.same hsc
+          refine ih _ _ p' _ _ hg' (alloc_afterReissue ha hcap htcp p' hs' ht' hr') ?_
+          rw [hsc.1]
+          exact reissueProbe_good hc hm hg.compat htcp ha hcap hre
+        · simp [hcap]
+      · have : finishSend (Chan.send ch p inj).1 s p log calls (.err e ops) ≠ .panic :=
+          finishSend_no_panic ha log calls (by simp)
+        cases e <;> first | exact absurd rfl hea | exact this
+
+/-- **The send step of the stack never panics**: in every reachable state, with a channel made by
+`connect` for the same trace, whatever errors strike the socket calls. -/
+theorem sendRequestS_no_panic {c : Cfg} (hc : CfgOk c) (hm : CfgMach c) {ch : Chan.Chan}
+    (hg : ChanGood c ch) {s : TS} (hi : Inv c s) (injs : List Chan.Inject) :
+    sendRequestS c ch s injs ≠ .panic := by
+  unfold sendRequestS
+  simp only [canSendR_eq hc hi, R.bind_ok]
+  by_cases hcs : canSend c s = true
+  · rw [if_pos hcs]
+    have hg' := hcs
+    simp only [canSend, Bool.and_eq_true, Bool.not_eq_true', decide_eq_true_eq] at hg'
+    obtain ⟨⟨_, hmax⟩, _⟩ := hg'
+    have h254 : s.ttl ≤ 254 := by have := hc.max_le; omega
+    unfold doSendsS
+    cases hp : c.proto with
+    | tcp =>
+      simp only [roundHasCapacity_eq hi, R.bind_ok]
+      by_cases hcap : s.count < BUFFER_SIZE
+      · obtain ⟨p, hnp, hs1, ht1, hr1, _⟩ := nextProbe_spec hc hi hcap h254 s.now
+        simp only [hcap, decide_true, if_true, hnp, R.bind_ok]
+        exact tcpLoopS_no_panic hc hm hp injs ch _ p [] [] hg
+          (alloc_afterNext hi hcap h254 p hs1 ht1 hr1) (nextProbe_good hc hm hg.compat hi hcap hnp)
+      · simp [hcap]
+    | icmp =>
+      have hcap : s.count < BUFFER_SIZE := by
+        have := hi.count_ttl (by rw [hp]; simp); have := hc.first_ge; simp [BUFFER_SIZE_eq]; omega
+      obtain ⟨p, hnp, hs1, ht1, hr1, _⟩ := nextProbe_spec hc hi hcap h254 s.now
+      simp only [hnp, R.bind_ok]
+      exact finishSend_no_panic (alloc_afterNext hi hcap h254 p hs1 ht1 hr1) [] []
+        (send_good_no_panic hg (nextProbe_good hc hm hg.compat hi hcap hnp) _)
+    | udp =>
+      have hcap : s.count < BUFFER_SIZE := by
+        have := hi.count_ttl (by rw [hp]; simp); have := hc.first_ge; simp [BUFFER_SIZE_eq]; omega
+      obtain ⟨p, hnp, hs1, ht1, hr1, _⟩ := nextProbe_spec hc hi hcap h254 s.now
+      simp only [hnp, R.bind_ok]
+      exact finishSend_no_panic (alloc_afterNext hi hcap h254 p hs1 ht1 hr1) [] []
+        (send_good_no_panic hg (nextProbe_good hc hm hg.compat hi hcap hnp) _)
+  · simp [hcs]
+
+/-- the `State` of a running tracer: `State::new` folded over well-formed rounds -/
+def AggOk {F : Type} [Agg.Num F] (agg : Agg.State F) : Prop :=
+  ∃ (acfg : Agg.Cfg) (hist : List Round), (∀ r ∈ hist, Reagg.RoundWF r) ∧
+    Agg.State.run (Agg.State.new (F := F) acfg) hist = .ok agg
+
+/-- folding one more well-formed round into such a state succeeds -/
+theorem aggOk_step {F : Type} [Agg.Num F] {agg : Agg.State F} (h : AggOk agg) {r : Round}
+    (hr : Reagg.RoundWF r) : ∃ agg', agg.updateFromRound r = .ok agg' ∧ AggOk agg' := by
+  obtain ⟨acfg, hist, hwf, hrun⟩ := h
+  have hwf' : ∀ x ∈ hist ++ [r], Reagg.RoundWF x := by
+    intro x hx
+    rcases List.mem_append.mp hx with hx | hx
+    · exact hwf x hx
+    · simp at hx; subst hx; exact hr
+  obtain ⟨st, hst, _⟩ := C10.getters_never_panic (F := F) acfg (hist ++ [r]) hwf'
+  rw [Agg.State.run_append, hrun] at hst
+  simp only [R.bind_ok, Agg.State.run] at hst
+  cases hu : agg.updateFromRound r with
+  | panic => simp [hu] at hst
+  | err e => simp [hu] at hst
+  | ok agg' => exact ⟨agg', rfl, acfg, hist ++ [r], hwf', by rw [Agg.State.run_append, hrun]; simp [Agg.State.run, hu]⟩
+
+/-- the invariant of a running tracer -/
+structure Good {F : Type} [Agg.Num F] (c : Cfg) (st : St F) : Prop where
+  reach : Reach c st.ts
+  chan : ChanGood c st.chan
+  agg : AggOk st.agg
+
+/-- the receive socket of an IPv6 tracer does not report an `AF_INET` peer (what the kernel
+guarantees; `C04.recv_v6_v4_sockaddr_panics` is the witness that the hypothesis is needed) -/
+def EnvOk (cc : Wire.ChanCfg) (e : Env) : Prop :=
+  cc.v6 = true → ∀ src bytes, e.recv.dgram = .data src bytes → src.length ≠ 4
+
+/-- **One iteration of the whole stack never panics, and keeps the invariant** — for every
+configuration the builder accepts (`CfgOk`, machine-valued identifiers and ports, `first_ttl ≤
+max_ttl`, `max_inflight ≥ 1`), every reachable state and every socket-level environment: any I/O
+error at any socket call of any `send_probe`, any wait, any bytes on the receive socket (truncated,
+oversized, hostile), any answers of the outstanding TCP sockets. -/
+theorem iter_never_panics {F : Type} [Agg.Num F] {c : Cfg} (hc : CfgOk c) (hm : CfgMach c)
+    (hfm : c.firstTtl ≤ c.maxTtl) (hinf : 1 ≤ c.maxInflight) {st : St F} (hg : Good c st) (e : Env)
+    (he : EnvOk st.chan.cfg e) :
+    Stack.iter c st e ≠ .panic ∧
+    ∀ st' o, Stack.iter c st e = .ok (st', o) → Good c st' ∧ st'.chan.cfg = st.chan.cfg := by
+  have hi := reach_inv hc hg.reach
+  have hsp := sendRequestS_no_panic hc hm hg.chan hi e.injs
+  unfold Stack.iter
+  cases hs : sendRequestS c st.chan st.ts e.injs with
+  | panic => exact absurd hs hsp
+  | err er => exact ⟨by simp, fun _ _ h => by simp at h⟩
+  | ok r =>
+    obtain ⟨ch, ts1, sent, calls⟩ := r
+    have hsame := sendRequestS_chan hs
+    have hsr := sendRequestS_ok hs
+    simp only at hsr hsame
+    have hgc : ChanGood c (Chan.advance ch e.dt) :=
+      (hg.chan.same hsame).same ⟨rfl, rfl, rfl, rfl⟩ |> fun h => ⟨h.inv, h.compat, h.addr⟩
+    have hcfg : (Chan.advance ch e.dt).cfg = st.chan.cfg := by simp [Chan.advance, hsame.1]
+    have hrnp := Channel.recv_never_panics (Chan.advance ch e.dt) hgc.addr e.recv (by rw [hcfg]; exact he)
+    simp only [R.bind_ok]
+    -- the abstract iteration for the same outcomes never panics
+    cases hro : recvOutcome (Chan.advance ch e.dt).now (Chan.recv (Chan.advance ch e.dt) e.recv).out with
+    | panic =>
+      exfalso
+      cases hout : (Chan.recv (Chan.advance ch e.dt) e.recv).out with
+      | panic => exact hrnp hout
+      | err er => rw [hout] at hro; simp [recvOutcome] at hro
+      | ok w => rw [hout] at hro; cases w <;> simp [recvOutcome] at hro
+    | err er => exact ⟨by simp, fun _ _ h => by simp at h⟩
+    | ok ro =>
+      simp only [R.bind_ok]
+      obtain ⟨hnp, hinv⟩ := iter_inv hc hi { sends := sent.map (·.2), dt := e.dt, recv := ro }
+      unfold Strat.iter at hnp hinv
+      simp only [hsr, R.bind_ok] at hnp hinv
+      cases hrv : recvResponse c ts1 e.dt ro with
+      | panic => simp [hrv] at hnp
+      | err er => exact ⟨by simp, fun _ _ h => by simp at h⟩
+      | ok ts2 =>
+        simp only [hrv, R.bind_ok] at hnp hinv ⊢
+        cases hu : updateRound c ts2 with
+        | panic => simp [hu] at hnp
+        | err er => exact ⟨by simp, fun _ _ h => by simp at h⟩
+        | ok v =>
+          obtain ⟨ts3, pub⟩ := v
+          simp only [hu, R.bind_ok] at hnp hinv ⊢
+          have hit : Strat.iter c st.ts { sends := sent.map (·.2), dt := e.dt, recv := ro } =
+              .ok (ts3, { sent := sent, published := pub }) := by
+            unfold Strat.iter; simp [hsr, hrv, hu]
+          have hreach' : Reach c ts3 := Reach.step _ _ hg.reach hit
+          have hrg : ChanGood c (Chan.recv (Chan.advance ch e.dt) e.recv).chan := by
+            have hk := Chan.recv_keeps (Chan.advance ch e.dt) e.recv
+            exact ⟨by unfold Channel.Inv at *; rw [hk.2.2.2.1, hk.1]; exact hgc.inv, by rw [hk.1]; exact hgc.compat,
+              by rw [hk.1]; exact hgc.addr⟩
+          have hcfg' : (Chan.recv (Chan.advance ch e.dt) e.recv).chan.cfg = st.chan.cfg := by
+            rw [(Chan.recv_keeps (Chan.advance ch e.dt) e.recv).1]; exact hcfg
+          cases pub with
+          | none =>
+            simp only [R.bind_ok]
+            refine ⟨by simp, fun st' o h => ?_⟩
+            cases h
+            exact ⟨⟨hreach', hrg, hg.agg⟩, hcfg'⟩
+          | some rd =>
+            have hwf := Compose.published_round_wf hc hfm hinf hg.reach hit rd rfl
+            obtain ⟨agg', hagg, hok'⟩ := aggOk_step hg.agg hwf
+            simp only [hagg, R.bind_ok]
+            refine ⟨by simp, fun st' o h => ?_⟩
+            cases h
+            exact ⟨⟨hreach', hrg, hok'⟩, hcfg'⟩
+
+/-- **`Tracer::run` never panics** (C04 ∘ C09 ∘ C16 for the whole stack): for every configuration the
+builder accepts and every socket-level environment list, of any length, the run — connect, the
+loop, the handler — ends with `Ok(())`, with an error *value* (recorded in the state), or is still
+running when the environment list ends; it never ends in a panic. -/
+theorem loop_never_panics {F : Type} [Agg.Num F] {c : Cfg} (hc : CfgOk c) (hm : CfgMach c)
+    (hfm : c.firstTtl ≤ c.maxTtl) (hinf : 1 ≤ c.maxInflight) : ∀ (envs : List Env) (st : St F),
+    Good c st → (∀ e ∈ envs, EnvOk st.chan.cfg e) → (Stack.loop c st envs).2.2 ≠ some .panic := by
+  intro envs
+  induction envs with
+  | nil => intro st _ _; simp only [Stack.loop]; split <;> simp
+  | cons e es ih =>
+    intro st hg he
+    unfold Stack.loop
+    by_cases hf : finished st.ts c.maxRounds = true
+    · simp [hf]
+    · simp only [hf, Bool.false_eq_true, if_false]
+      obtain ⟨hnp, hgood⟩ := iter_never_panics hc hm hfm hinf hg e (he e (by simp))
+      cases hi : Stack.iter c st e with
+      | panic => exact absurd hi hnp
+      | err er => simp
+      | ok v =>
+        obtain ⟨st', o⟩ := v
+        simp only
+        obtain ⟨hg', hcfg⟩ := hgood st' o hi
+        exact ih st' hg' (fun e' he' => by rw [hcfg]; exact he e' (by simp [he']))
+
+/-- what `Builder::build` guarantees about the configuration it splits between the layers
+(`make_channel_config`, `make_strategy_config`): the strategy's share is accepted (`CfgOk`, `u16`
+identifiers and ports, `first_ttl ≤ max_ttl`, `max_inflight ≥ 1` as the CLI enforces), source and
+target are addresses of one family, and both layers are configured for the same trace -/
+structure TracerCfgOk (k : TracerCfg) : Prop where
+  cfg : CfgOk k.strat
+  mach : CfgMach k.strat
+  ttls : k.strat.firstTtl ≤ k.strat.maxTtl
+  inflight : 1 ≤ k.strat.maxInflight
+  src_len : k.conn.src.length = 4 ∨ k.conn.src.length = 16
+  dst_len : k.conn.dst.length = k.conn.src.length
+  v6 : Chan.isV6 k.conn.src = k.strat.v6
+  proto : k.conn.proto = k.strat.proto
+  initial : k.conn.initialSeq = k.strat.initialSeq
+  target : Wire.addrNat k.conn.dst = k.strat.target
+
+/-- **`Tracer::run` never panics.**  For every configuration `Builder::build` accepts, every start
+time and every list of socket-level environments (of any length; the IPv6 receive socket never
+reporting an `AF_INET` peer), the run ends with `Ok(())`, ends with an error value, or is still
+going when the list ends — never with a panic; a packet size above 1024 is an error value from
+`connect`. -/
+theorem run_never_panics {F : Type} [Agg.Num F] (k : TracerCfg) (hk : TracerCfgOk k) (t0 : Nat)
+    (envs : List Env)
+    (henv : ∀ e ∈ envs, Chan.isV6 k.conn.src = true → ∀ src bytes, e.recv.dgram = .data src bytes → src.length ≠ 4) :
+    (Stack.run (F := F) k t0 envs).ended ≠ some .panic := by
+  by_cases hsz : k.conn.packetSize ≤ 1024
+  · have hf : Chan.isV6 k.conn.src = Chan.isV6 k.conn.dst := by simp [Chan.isV6, hk.dst_len]
+    obtain ⟨ch, hcn, hinv, _, _, _, hcfg⟩ := Channel.connect_ok k.conn t0 hsz hf
+    rw [run_connected (F := F) k t0 envs hcn]
+    have haddr : ch.cfg.AddrOk := by
+      rw [hcfg]; unfold Wire.ChanCfg.AddrOk
+      simp only [Chan.isV6]
+      rcases hk.src_len with h | h <;> simp [h, hk.dst_len]
+    have hcompat : C02.Compat ch.cfg k.strat := by
+      rw [hcfg]; exact ⟨hk.v6, hk.proto, hk.initial, hk.target⟩
+    have hgood : Good (F := F) k.strat { chan := ch, ts := init k.strat t0, agg := Agg.State.new k.agg } :=
+      ⟨Reach.init t0, ⟨hinv, hcompat, haddr⟩, k.agg, [], by simp, rfl⟩
+    refine loop_never_panics (F := F) hk.cfg hk.mach hk.ttls hk.inflight envs _ hgood ?_
+    intro e he hv
+    simp only at hv
+    rw [hcfg] at hv
+    exact henv e he hv
+  · have : k.conn.packetSize > 1024 := by omega
+    simp [Stack.run, Channel.connect_size_guard k.conn t0 this]
+
+/-- the hypotheses are satisfiable: 10.0.0.1 → 10.0.0.7, ICMP, 84 octets -/
+def sampleTracerCfg : TracerCfg :=
+  { strat := { v6 := false, target := 167772167, proto := .icmp, traceId := 4660, maxRounds := some 3,
+               firstTtl := 1, maxTtl := 30, grace := 100, maxInflight := 24, initialSeq := 33434,
+               strat := .classic, portDir := .none, minRound := 1000, maxRound := 1000 },
+    conn := { src := [10, 0, 0, 1], dst := [10, 0, 0, 7], packetSize := 84, pattern := 0, privileged := true,
+              tos := 0, proto := .icmp, extEnabled := true, initialSeq := 33434, readTimeout := 10, tcpTimeout := 1000 },
+    agg := { maxSamples := 256, maxFlows := 64 } }
+
+example : TracerCfgOk sampleTracerCfg :=
+  ⟨by simp [CfgOk, sampleTracerCfg, Consts.core_MAX_TTL, Consts.core_MAX_INITIAL_SEQUENCE], by simp [CfgMach, sampleTracerCfg],
+   by decide, by decide, .inl rfl, rfl, rfl, rfl, rfl, by decide⟩
+
 end TV.Props.Stack
 
 #print axioms TV.Props.Stack.iter_refines
@@ -413,3 +835,7 @@ end TV.Props.Stack
 #print axioms TV.Props.Stack.loop_no_error
 #print axioms TV.Props.Stack.datagram_completes_probe
 #print axioms TV.Props.Stack.icmp_v4_end_to_end
+#print axioms TV.Props.Stack.sendRequestS_no_panic
+#print axioms TV.Props.Stack.iter_never_panics
+#print axioms TV.Props.Stack.loop_never_panics
+#print axioms TV.Props.Stack.run_never_panics
